@@ -10,9 +10,14 @@ def op(name, o=0, p=0, t=0):
     return {"op": name, "o": o, "p": p, "t": t}
 
 
-def new_prog(rec=(), cap=(), ncv=0, bar=(), actors=(), hosts=1):
-    return {"rec": list(rec), "cap": list(cap), "ncv": ncv, "bar": list(bar), "hosts": hosts,
-            "actors": [list(a) for a in actors]}
+def new_prog(rec=(), cap=(), ncv=0, bar=(), actors=(), hosts=0, perm=(), nmq=0, timed=True):
+    """perm[b] = permanent receiver (actor number, 0 = none) of mailbox b+1; timed = exact durations (one host per actor,
+    dedicated FATPIPE link, 1 byte = 1 tick, 1 exec unit = 1 tick)."""
+    return {"rec": list(rec), "cap": list(cap), "ncv": ncv, "bar": list(bar), "hosts": hosts or max(1, len(actors)),
+            "perm": list(perm), "nmq": nmq, "timed": bool(timed), "actors": [list(a) for a in actors]}
+
+
+TIMED_CFG = ["--cfg=network/model:CM02", "--cfg=network/crosstraffic:0"]
 
 
 def prog_to_txt(p, tick_exp=10):
@@ -21,6 +26,9 @@ def prog_to_txt(p, tick_exp=10):
     out += ["@sem %d" % c for c in p["cap"]]
     out += ["@cv"] * p["ncv"]
     out += ["@bar %d" % b for b in p["bar"]]
+    out += ["@mbox %d" % r for r in p.get("perm", [])]
+    out += ["@mq"] * p.get("nmq", 0)
+    out += ["@timed %d" % (1 if p.get("timed", True) else 0)]
     for i, a in enumerate(p["actors"]):
         out.append("@actor %d 0" % (i % max(1, p.get("hosts", 1))))
         for o in a:
@@ -36,11 +44,11 @@ def prog_brief(p):
             s += "/m%d" % o["p"]
         if o["op"] == "trylock" and o["p"]:
             s += "?"
-        if o["op"] in ("acqt", "cvwaitfor", "sleep"):
+        if o["op"] in ("acqt", "cvwaitfor", "sleep", "put", "puta", "putd", "exec", "execa", "waitfor"):
             s += "@%d" % o["t"]
         return s
-    return {"rec": p["rec"], "cap": p["cap"], "ncv": p["ncv"], "bar": p["bar"],
-            "actors": [" ".join(f(o) for o in a) for a in p["actors"]]}
+    return {"rec": p["rec"], "cap": p["cap"], "ncv": p["ncv"], "bar": p["bar"], "perm": p.get("perm", []),
+            "nmq": p.get("nmq", 0), "timed": p.get("timed", True), "actors": [" ".join(f(o) for o in a) for a in p["actors"]]}
 
 
 def shared_objects(p):
@@ -49,7 +57,8 @@ def shared_objects(p):
     for i, a in enumerate(p["actors"]):
         for o in a:
             kind = {"lock": "m", "trylock": "m", "unlock": "m", "acq": "s", "acqt": "s", "rel": "s", "cvwait": "c",
-                    "cvwaitfor": "c", "sig": "c", "bcast": "c", "bar": "b"}.get(o["op"])
+                    "cvwaitfor": "c", "sig": "c", "bcast": "c", "bar": "b", "put": "x", "puta": "x", "putd": "x",
+                    "get": "x", "geta": "x", "mput": "q", "mputa": "q", "mget": "q", "mgeta": "q"}.get(o["op"])
             if kind:
                 seen.setdefault((kind, o["o"]), set()).add(i)
                 if kind == "c":
@@ -175,7 +184,8 @@ def run_kdrv(ctx, idx, prog, cfg=(), timeout=20, env=None, wrapper=()):
     e = vlib.sg_env({"VERIF_KTRACE": tr})
     if env:
         e.update(env)
-    rc, out, err = vlib.sh(list(wrapper) + [drv, ptxt, "--log=root.thres:critical", "--cfg=debug/stacktrace:none"] + list(cfg), timeout=timeout, env=e)
+    rc, out, err = vlib.sh(list(wrapper) + [drv, ptxt, "--log=root.thres:critical", "--cfg=debug/stacktrace:none"] +
+                           (TIMED_CFG if prog.get("timed", True) else []) + list(cfg), timeout=timeout, env=e)
     recs = []
     if os.path.exists(tr):
         for line in open(tr):
@@ -342,14 +352,110 @@ def impl_outcome(prog, recs):
     """Outcome of a real run in the same shape as SgKernel!Outcome (obs per actor, end kind)."""
     na = len(prog["actors"])
     obs = [[] for _ in range(na)]
+    ov = [[] for _ in range(na)]
     end = None
     for r in recs:
         if r.get("e") == "ret" and 1 <= r["a"] <= na:
             a = r["a"] - 1
             o = prog["actors"][a][r["k"] - 1]
             obs[a].append(r["res"])
+            ov[a].append(r.get("val", 0))
             if o["op"] == "trylock" and o["p"] == 1 and r["res"] == "false" and r["k"] < len(prog["actors"][a]):
                 obs[a].append("skip")
+                ov[a].append(0)
         elif r.get("e") == "end" and end is None:
             end = r["how"]
-    return {"obs": obs, "end": end}
+    return {"obs": obs, "ov": ov, "end": end}
+
+
+# ------------------------------------------------------------------------------------------- more generators
+
+def gen_comm_prog(rng, max_actors=5, max_ops=6, timed=None, mess=False):
+    """Mailbox (or message-queue) program: blocking / asynchronous / detached sends, blocking / asynchronous receives,
+    wait / test on handles, permanent receivers; mostly balanced so that most programs terminate."""
+    na = rng.randint(2, max_actors)
+    nb = rng.randint(1, 3)
+    if timed is None:
+        timed = rng.random() < 0.75
+    perm = [0] * nb
+    if not mess:
+        for b in range(nb):
+            if rng.random() < 0.3:
+                perm[b] = rng.randint(1, na)
+    actors = [[] for _ in range(na)]
+    nh = [0] * na   # handles created so far
+    pending = [[] for _ in range(na)]  # handles not yet waited
+    budget = rng.randint(2, max_ops * na // 2 + 1)
+    P, PA, PD, G, GA = ("mput", "mputa", None, "mget", "mgeta") if mess else ("put", "puta", "putd", "get", "geta")
+    for _ in range(budget):
+        b = rng.randrange(nb)
+        s = rng.randrange(na)
+        r = perm[b] - 1 if perm[b] else rng.randrange(na)
+        if s == r:
+            s = (s + 1) % na
+        sz = rng.choice([1, 2, 3, 5, 8]) if timed else rng.choice([1, 100, 5000, 70000])
+        if timed and rng.random() < 0.3:
+            actors[rng.choice([s, r])].append(op("sleep", 0, 0, rng.choice([1, 2, 3])))
+        ks = rng.choice([P, P, PA, PA] + ([PD] if PD else []))
+        if len(actors[s]) < max_ops + 2:
+            actors[s].append(op(ks, b + 1, 0, 0 if mess else sz))
+            if ks == PA:
+                nh[s] += 1
+                pending[s].append(nh[s])
+        if rng.random() < 0.9 and len(actors[r]) < max_ops + 2:
+            kr = rng.choice([G, G, GA])
+            actors[r].append(op(kr, b + 1))
+            if kr == GA:
+                nh[r] += 1
+                pending[r].append(nh[r])
+        for a in (s, r):
+            if pending[a] and rng.random() < 0.5:
+                h = pending[a].pop(rng.randrange(len(pending[a])))
+                k = rng.choice(["wait", "wait", "test"] + (["waitfor"] if timed else []))
+                actors[a].append(op(k, h, 0, rng.choice([0, 1, 2, 4, 6]) if k == "waitfor" else 0))
+                if k != "wait":
+                    pending[a].append(h)
+    for a in range(na):
+        rng.shuffle(pending[a])
+        for h in pending[a]:
+            if rng.random() < 0.8:
+                actors[a].append(op("wait", h))
+    return new_prog(actors=actors, perm=[] if mess else perm, nmq=nb if mess else 0, timed=timed)
+
+
+def gen_timed_prog(rng, max_actors=4, max_ops=6):
+    """Timed operations with deliberately coinciding dates: sleeps, timed acquires / waits, executions, asynchronous
+    activities waited with a timeout placed before / at / after their completion date."""
+    na = rng.randint(1, max_actors)
+    actors = []
+    ns = rng.randint(0, 2)
+    nb = rng.randint(0, 1)
+    cap = [rng.choice([0, 0, 1]) for _ in range(ns)]
+    for a in range(na):
+        ops = []
+        nh = 0
+        for _ in range(rng.randint(1, max_ops)):
+            k = rng.choice(["sleep", "sleep", "exec", "execa+wf", "acqt", "rel", "puta+wf", "geta+wf", "cvwf"])
+            if k == "sleep":
+                ops.append(op("sleep", 0, 0, rng.randint(1, 4)))
+            elif k == "exec":
+                ops.append(op("exec", 0, 0, rng.randint(1, 4)))
+            elif k == "execa+wf":
+                d = rng.randint(1, 4)
+                ops.append(op("execa", 0, 0, d))
+                nh += 1
+                ops.append(op("waitfor", nh, 0, max(0, d + rng.choice([-1, 0, 0, 1]))))
+                if rng.random() < 0.7:
+                    ops.append(op("wait", nh))
+            elif k == "acqt" and ns:
+                ops.append(op("acqt", rng.randint(1, ns), 0, rng.randint(0, 4)))
+            elif k == "rel" and ns:
+                ops.append(op("rel", rng.randint(1, ns)))
+            elif k in ("puta+wf", "geta+wf") and nb and na > 1:
+                ops.append(op("puta" if k[0] == "p" else "geta", 1, 0, rng.randint(1, 4) if k[0] == "p" else 0))
+                nh += 1
+                ops.append(op("waitfor", nh, 0, rng.randint(0, 5)))
+                if rng.random() < 0.5:
+                    ops.append(op("wait", nh))
+        actors.append(ops)
+    return new_prog(cap=cap, actors=actors, perm=[0] * nb, timed=True)
